@@ -1157,7 +1157,7 @@ func c04RunOpt(ctx *Ctx, c c04OptCase) {
 
 func TestC04(t *testing.T) {
 	r := newRec("C04",
-		"(concurrent) a history is 1..6 compiled expressions (a pool of read-heavy programs using where/select/exists/all/iif/now()/variables/a custom function, plus generated programs), the fixture Patient + 0..2 generated resources shared by all goroutines, 2..16 goroutines each with 1..20 (expression, resource subset, option set) evaluations (60% of them the same expression on the same resource), a drawn start order behind a barrier, GOMAXPROCS ∈ {1,2,4,16} and 0..3 goroutines calling Compile/patch.Compile with AddFunction/WithExperimentalFuncs meanwhile; run in a -race binary; oracle: race detector silent, every concurrent result (rendering and element pointers) equals the same evaluation performed alone beforehand, shared resources unchanged.  (time) instants around epoch/leap day/DST changes/year 9999 in 13 zones: now()/today()/timeOfDay() under OverrideTime, one instant per evaluation spanning ≥ 6 ms with and without override, repeatability.  (tz-matrix) a fixed battery without OverrideTime in child processes with TZ ∈ {UTC, Asia/Kolkata, America/St_Johns, Pacific/Chatham} must render identically.  (compile-isolation) generated histories of 1..10 Compile calls over {fresh/duplicate/built-in/variadic/non-function AddFunction, WithExperimentalFuncs, AddFunction combined with WithExperimentalFuncs in either order, Permissive, patch.Compile, plain} with the invariant after every step: base table snapshot unchanged, no registered name resolves elsewhere, join only with the experimental option, built-in battery unchanged.  (retained-results) one compiled path (a path of a generated resource A, optionally followed by where/tail/select/take/children) evaluated on A, then on a second resource B of the same type, then on A again: the collection returned first still holds A's elements and the third result equals the first.; the caller then overwrites the collections it was given and evaluates once more (same result); programs include `is`/exists()/count() results and results cut from the root collection.  (in-place-edits) a compiled path with a conversion (toString(), = …) is evaluated, the caller changes the value of every primitive element in place and re-packs every contained resource into its own Any, and evaluates again: the result must equal a fresh compilation evaluated on a deep copy of the edited resource.  non-trivial = ≥ 2 evaluations of one (expression, resources, options) triple in different goroutines; a history with a registration followed by a plain Compile; distinct = FNV-64 of the history",
+		"(concurrent) a history is 1..6 compiled expressions (a pool of read-heavy programs using where/select/exists/all/iif/now()/variables/a custom function, plus generated programs), the fixture Patient + 0..2 generated resources shared by all goroutines, 2..16 goroutines each with 1..20 (expression, resource subset, option set) evaluations (60% of them the same expression on the same resource), a drawn start order behind a barrier, GOMAXPROCS ∈ {1,2,4,16} and 0..3 goroutines calling Compile/patch.Compile with AddFunction/WithExperimentalFuncs meanwhile; run in a -race binary; oracle: race detector silent, every concurrent result (rendering and element pointers) equals the same evaluation performed alone beforehand, shared resources unchanged.  (time) instants around epoch/leap day/DST changes/year 9999 in 13 zones: now()/today()/timeOfDay() under OverrideTime, one instant per evaluation spanning ≥ 6 ms with and without override, repeatability.  (changing-options) one compiled expression - variables at the receiver/argument positions of every specification function and at both sides of every binary operator, values from the boundary pool of the kind the position expects - evaluated with first values, other values and the first values again: each result equals that of a freshly compiled expression with the same options.  (tz-matrix) a battery (fixed programs plus literal and element arithmetic, conversions and comparisons for 9 starts around the daylight-saving changes of the matrix zones × 9 offsets × 9 amounts) without OverrideTime in child processes with TZ ∈ {UTC, Asia/Kolkata, America/St_Johns, Pacific/Chatham} must render identically.  (compile-isolation) generated histories of 1..10 Compile calls over {fresh/duplicate/built-in/variadic/non-function AddFunction, WithExperimentalFuncs, AddFunction combined with WithExperimentalFuncs in either order, Permissive, patch.Compile, plain} with the invariant after every step: base table snapshot unchanged, no registered name resolves elsewhere, join only with the experimental option, built-in battery unchanged.  (retained-results) one compiled path (a path of a generated resource A, optionally followed by where/tail/select/take/children) evaluated on A, then on a second resource B of the same type, then on A again: the collection returned first still holds A's elements and the third result equals the first.; the caller then overwrites the collections it was given and evaluates once more (same result); programs include `is`/exists()/count() results and results cut from the root collection.  (in-place-edits) a compiled path with a conversion (toString(), = …) is evaluated, the caller changes the value of every primitive element in place and re-packs every contained resource into its own Any, and evaluates again: the result must equal a fresh compilation evaluated on a deep copy of the edited resource.  non-trivial = ≥ 2 evaluations of one (expression, resources, options) triple in different goroutines; a history with a registration followed by a plain Compile; distinct = FNV-64 of the history",
 		"the Go scheduler is not controlled: only interleavings that occur are judged; the race detector flags conflicting unsynchronised accesses that occur in a run even if they did not overlap in time")
 	runProperty(t, r,
 		Stage[c04TZCase]{Name: "tz-matrix", Enum: c04EnumTZ, Run: c04RunTZ},
